@@ -102,9 +102,21 @@ func bundleFile(c *core.Ctx) ([]byte, string) {
 		n = c.Int("file.len2", 8, 600)
 	}
 	data := c.BytesN("file.data", n)
-	kind := c.PickStr("file.kind", "own-length", "own-length", "own-length", "less", "more", "huge")
+	kind := c.PickStr("file.kind", "own-length", "own-length", "own-length", "less", "more", "huge", "with-block")
 	var stated uint64
 	switch kind {
+	case "with-block":
+		// the file already carries an integrity block in front of the bundle: the empty
+		// one [magic, version, []], or one listing 1-2 (arbitrary) signatures
+		var stack []refib.Sig
+		for i := c.PickInt("file.blockSigs", 0, 0, 1, 2); i > 0; i-- {
+			pub, _ := fixtures.Ed25519Key(i)
+			stack = append(stack, refib.Sig{Attrs: map[string][]byte{"ed25519PublicKey": []byte(pub)}, Signature: c.BytesN("file.blockSig", 64)})
+		}
+		blk := refib.EncodeBlock(stack)
+		binary.BigEndian.PutUint64(data[n-8:], uint64(n))
+		c.Fault("input-already-carries-a-block")
+		return append(blk, data...), kind
 	case "own-length":
 		stated = uint64(n)
 	case "less":
@@ -244,12 +256,25 @@ func TestHistory(t *testing.T) {
 				if perr != nil {
 					continue // the caller cannot even start
 				}
+				var ownKey ed25519.PrivateKey
+				if h.fault == "" && c.Chance("libraryStrategy", 1, 3) {
+					// the library's own key-holding strategy, given the caller's copy of the private
+					// key, which the caller wipes as soon as the signing call has returned
+					ownKey = append(ed25519.PrivateKey(nil), h.priv...)
+					st := integrityblock.NewParsedEd25519KeySigningStrategy(ownKey)
+					ibs.SigningStrategy = st
+					pub, _ = st.GetPublicKey()
+					c.Probe("library strategy; private key wiped after the call")
+				}
 				attrs := extraAttrs(c, pub)
 				beforeStack := append([]*integrityblock.IntegritySignature(nil), blk.SignatureStack...)
 				var err error
 				pi := c.Guard("SignAndAddNewSignature", func() { err = ibs.SignAndAddNewSignature(pub, attrs) })
 				if c.Oracle("C10", "C07") && pi != nil {
 					c.CheckTotal("SignAndAddNewSignature", len(data), pi, 0)
+				}
+				for j := range ownKey {
+					ownKey[j] = 0
 				}
 				c.Event("signing %d fault=%q -> err=%v stack=%d", i, h.fault, err != nil, len(blk.SignatureStack))
 				signatureBad := h.fault == "sign-error" || h.fault == "flip-bit" || h.fault == "other-key" || h.fault == "pubkey-mismatch" || h.fault == "truncated-sig"
